@@ -159,7 +159,7 @@ class ReaderStream:
                 stream += rng.choice([wire.enc_pingresp(), wire.enc_suback(proto, 77, [1], props=P(wire.SUBACK))])
             else:
                 # the malformed stream
-                stream += rng.choice([b"\xf0\x00", b"\x40\x01\x00", b"\x30\x01\x00", b"\x20\x81\x81\x81\x81\x81\x01", DecodeStream().rand_packet(rng, proto)])
+                stream += rng.choice([b"\xf0\x00", b"\x00\x02\x10\x00", b"\x00", b"\x40\x01\x00", b"\x30\x01\x00", b"\x20\x81\x81\x81\x81\x81\x01", DecodeStream().rand_packet(rng, proto)])
         if stream or rng.random() < 0.5:
             items = chunk(rng, stream)
             x = rng.random()
